@@ -378,6 +378,94 @@ def gen_guards(out):
 EXTRA.append(gen_guards)
 
 
+def find_expression(obj, depth=0):
+    from lesscpy.plib.expression import Expression
+    if isinstance(obj, Expression):
+        return obj
+    if depth > 12:
+        return None
+    toks = getattr(obj, 'tokens', None)
+    if toks is not None:
+        obj = toks
+    if isinstance(obj, (list, tuple)):
+        for x in obj:
+            r = find_expression(x, depth + 1)
+            if r is not None:
+                return r
+    return None
+
+
+def behavioural_matrix():
+    """push `7 op1 3 op2 2` through the REAL generated automaton and read the shape of the Expression tree:
+    left-nested = the automaton reduced on op2 (first operator binds first), right-nested = it shifted."""
+    import io
+    from lesscpy.lessc import parser as lp
+    from lesscpy.plib.expression import Expression
+    out = []
+    for o1 in '+-*/':
+        for o2 in '+-*/':
+            p = lp.LessParser(fail_with_exc=True)
+            p.scope.push()
+            p.target = '(matrix)'
+            res = p.parser.parse(io.StringIO('.x{width: 7 %s 3 %s 2}' % (o1, o2)), lexer=p.lex)
+            e = find_expression(res)
+            if e is None or len(e.tokens) != 3:
+                raise ValueError('no expression tree for %s %s' % (o1, o2))
+            left_nested = isinstance(e.tokens[0], Expression)
+            right_nested = isinstance(e.tokens[2], Expression)
+            if left_nested == right_nested:
+                raise ValueError('ambiguous shape for %s %s' % (o1, o2))
+            if left_nested:
+                ok = e.tokens[1] == o2 and e.tokens[0].tokens[1] == o1
+            else:
+                ok = e.tokens[1] == o1 and e.tokens[2].tokens[1] == o2
+            if not ok:
+                raise ValueError('unexpected operators in tree for %s %s' % (o1, o2))
+            out.append([o1, o2, 'reduce' if left_nested else 'shift'])
+    return out
+
+
+def declared_matrix():
+    """yacc's published rule applied to LessParser.precedence: higher level wins; equal level: left = reduce,
+    right = shift."""
+    from lesscpy.lessc import parser as lp
+    lvl = {}
+    for i, row in enumerate(lp.LessParser.precedence):
+        for tok in row[1:]:
+            lvl[tok] = (i + 1, row[0])
+    out = []
+    for o1 in '+-*/':
+        for o2 in '+-*/':
+            if o1 not in lvl or o2 not in lvl:
+                raise ValueError('operator without precedence')
+            (l1, a1), (l2, _) = lvl[o1], lvl[o2]
+            if l1 > l2:
+                act = 'reduce'
+            elif l1 < l2:
+                act = 'shift'
+            else:
+                act = {'left': 'reduce', 'right': 'shift'}.get(a1)
+                if act is None:
+                    raise ValueError('nonassoc')
+            out.append([o1, o2, act])
+    return out
+
+
+AOP = {'+': 'OAdd', '-': 'OSub', '*': 'OMul', '/': 'OTrueDiv'}
+
+
+def to_coq_matrix(v):
+    return coq_list(['(%s, %s, %s)' % (AOP[a], AOP[b], 'true' if act == 'reduce' else 'false') for a, b, act in v])
+
+
+def gen_expr(out):
+    out.put('expr_matrix_behaviour', 'list (aop * aop * bool)', to_coq_matrix, behavioural_matrix)
+    out.put('expr_matrix_declared', 'list (aop * aop * bool)', to_coq_matrix, declared_matrix)
+
+
+EXTRA.append(gen_expr)
+
+
 def render(out):
     lines = ['(* GENERATED by harness/gen_params.py from %s — do not edit, do not commit. *)' % REPO,
              'From Coq Require Import String.',
